@@ -7,10 +7,11 @@
      (structural recursion on fuel: with max_attempts = None the run need not end);
    - [step]: the futures of several requests sharing the published state, at poll
      granularity (Call / Poll / Advance / Complete / MakeReady events), with ghost logs.
-   [attempt] is a nat here and a u32 in the code: the model is the code for fewer than
-   2^32 reconnectable failures of one request.
-   Executable; no proofs here.  Time unit: milliseconds. *)
-From TR Require Import Lib.Base.
+   [attempt] is a nat here and a saturating u32 in the code: the model is the code for fewer
+   than 2^32 - 1 reconnectable failures of one request.
+   Executable; no proofs here.  Time unit: nanoseconds; the timer rounds deadlines up to
+   whole milliseconds and every poll has a cooperative budget (Lib/TokioTime.v). *)
+From TR Require Import Lib.Base Lib.TokioTime.
 
 Section Reconnect.
   Context {Res Err : Type}.
@@ -30,7 +31,7 @@ Section Reconnect.
   Record cfg := {
     pred : option (Err -> bool);          (* reconnect_predicate *)
     max_attempts : option nat;            (* Option<u32> *)
-    policy : nat -> option Z;             (* delay_for_attempt, ms *)
+    policy : nat -> option Z;             (* delay_for_attempt, ns *)
     retry_on_reconnect : bool
   }.
 
@@ -68,7 +69,8 @@ Section Reconnect.
 
   (* ---- one request as a function of its outcome stream ----
      inner k = (time until the result of the k-th inner call is observed, the result)
-     ready k = (extra wait beyond the delay before call k >= 1 starts, readiness error) *)
+     ready k = (extra wait beyond the (rounded) end of the delay before call k >= 1 starts
+                — late poll, exhausted cooperative budget, pending readiness —, readiness error) *)
   Record run := mkRun {
     calls : list call;
     result : option (Res + rerr);          (* None: fuel exhausted, still reconnecting *)
@@ -93,7 +95,7 @@ Section Reconnect.
           | O => mkRun [cl] None ws
           | S f =>
             let r := go c inner ready f (S a)
-                        (tf + Z.max 0 d + Z.max 0 (fst (ready (S a)))) in
+                        (ceil_ms (tf + Z.max 0 d) + Z.max 0 (fst (ready (S a)))) in
             mkRun (cl :: calls r) (result r) (ws ++ writes r)
           end
         end
@@ -106,6 +108,9 @@ Section Reconnect.
 
   (* ---- several requests, one published state, poll granularity ---- *)
   Inductive rdy := ROk | RErr (e : Err) | RGated.
+  (* k-th call: (gated?, outcome); readiness before the k-th call (k >= 1).  A gated call
+     waits on a tokio oneshot (completed by the Complete event) and so takes part in the
+     cooperative budget; an ungated call returns at once without touching the runtime. *)
   Record rin := { r_inner : nat -> bool * outcome; r_ready : nat -> rdy }.
 
   Inductive phase :=
@@ -130,7 +135,8 @@ Section Reconnect.
     reqs : nat -> rst;
     woken : nat -> bool;
     polled : nat -> bool;              (* the future has been polled (a waker is registered) *)
-    writer : option nat                (* ghost: request that wrote the state last *)
+    writer : option nat;               (* ghost: request that wrote the state last *)
+    wlog : list (nat * cstate)         (* ghost: every write of the state, by request, newest first *)
   }.
 
   Definition upd {A} (f : nat -> A) (i : nat) (v : A) : nat -> A :=
@@ -138,7 +144,7 @@ Section Reconnect.
 
   Definition init_rst : rst := mkRst PInit 0%nat None 0 [] None.
   Definition init : st :=
-    mkSt 0 Disconnected (fun _ => init_rst) (fun _ => false) (fun _ => false) None.
+    mkSt 0 Disconnected (fun _ => init_rst) (fun _ => false) (fun _ => false) None [].
 
   Inductive pres := Pending | Ready (x : Res + rerr) | Nothing.
 
@@ -146,57 +152,77 @@ Section Reconnect.
     mkRst (PCalling (negb (fst (r_inner inp (attempt r))))) (attempt r) (last_error r) t
           (log r) (res r).
 
-  (* one poll of a ReconnectFuture: runs until it has to wait; returns the state writes *)
-  Fixpoint drive (c : cfg) (inp : rin) (fuel : nat) (t : Z) (r : rst)
-    : rst * list cstate * pres :=
+  (* one poll of a ReconnectFuture: runs until it has to wait; returns the state writes.
+     [coop]: what is left of the cooperative budget of this poll.  The last component of
+     the result is true when the poll ended because a tokio resource found the budget
+     exhausted: the future has then woken itself (and registered nowhere else). *)
+  Fixpoint drive (c : cfg) (inp : rin) (fuel coop : nat) (t : Z) (r : rst)
+    : rst * list cstate * pres * bool :=
     match fuel with
-    | O => (r, [], Pending)
+    | O => (r, [], Pending, false)                           (* unreachable: Proof/Reconnect.v *)
     | S f =>
       match ph r with
-      | PInit => drive c inp f t (start_call inp t r)
-      | PCalling false => (r, [], Pending)
-      | PCalling true =>
-        let o := snd (r_inner inp (attempt r)) in
-        let cl := mkCall (attempt r) (cur_start r) t o in
-        match after_outcome c (attempt r) o with
-        | (ws, AReturn x) =>
-          (mkRst PDone (attempt r) None (cur_start r) (cl :: log r) (Some x), ws, Ready x)
-        | (ws, ARetry d e) =>
-          let '(r', ws', p) :=
-            drive c inp f t (mkRst (PSleeping (t + Z.max 0 d)) (S (attempt r)) (Some e)
-                                   (cur_start r) (cl :: log r) (res r)) in
-          (r', ws ++ ws', p)
-        end
-      | PSleeping dl =>
-        if dl <=? t then
-          match last_error r with
-          | None => (r, [], Pending)                        (* unreachable *)
-          | Some e =>
-            match after_sleep c e with
-            | None => drive c inp f t (mkRst (PReadying false) (attempt r) (last_error r)
-                                             (cur_start r) (log r) (res r))
-            | Some (ws, x) =>
-              (mkRst PDone (attempt r) None (cur_start r) (log r) (Some x), ws, Ready x)
-            end
+      | PInit => drive c inp f coop t (start_call inp t r)
+      | PCalling av =>
+        let gated := fst (r_inner inp (attempt r)) in
+        if gated && (coop =? 0)%nat then (r, [], Pending, true)
+        else if negb av then (r, [], Pending, false)
+        else
+          let coop1 := if gated then Nat.pred coop else coop in
+          let o := snd (r_inner inp (attempt r)) in
+          let cl := mkCall (attempt r) (cur_start r) t o in
+          match after_outcome c (attempt r) o with
+          | (ws, AReturn x) =>
+            (mkRst PDone (attempt r) None (cur_start r) (cl :: log r) (Some x), ws, Ready x, false)
+          | (ws, ARetry d e) =>
+            let '(r', ws', p, sw) :=
+              drive c inp f coop1 t
+                    (mkRst (PSleeping (ceil_ms (t + Z.max 0 d))) (S (attempt r)) (Some e)
+                           (cur_start r) (cl :: log r) (res r)) in
+            (r', ws ++ ws', p, sw)
           end
-        else (r, [], Pending)
+      | PSleeping dl =>
+        match coop with
+        | O => (r, [], Pending, true)
+        | S k =>
+          if dl <=? t then
+            match last_error r with
+            | None => (r, [], Pending, false)                  (* unreachable *)
+            | Some e =>
+              match after_sleep c e with
+              | None => drive c inp f k t (mkRst (PReadying false) (attempt r) (last_error r)
+                                                 (cur_start r) (log r) (res r))
+              | Some (ws, x) =>
+                (mkRst PDone (attempt r) None (cur_start r) (log r) (Some x), ws, Ready x, false)
+              end
+            end
+          else (r, [], Pending, false)
+        end
       | PReadying rel =>
         match r_ready inp (attempt r) with
-        | ROk => drive c inp f t (start_call inp t r)
+        | ROk => drive c inp f coop t (start_call inp t r)
         | RErr e =>
           (mkRst PDone (attempt r) (last_error r) (cur_start r) (log r)
-                 (Some (inr (ServiceError e))), [], Ready (inr (ServiceError e)))
-        | RGated => if rel then drive c inp f t (start_call inp t r) else (r, [], Pending)
+                 (Some (inr (ServiceError e))), [], Ready (inr (ServiceError e)), false)
+        | RGated => if rel then drive c inp f coop t (start_call inp t r)
+                    else (r, [], Pending, false)
         end
-      | PDone => (r, [], Nothing)
+      | PDone => (r, [], Nothing, false)
       end
     end.
+
+  (* between two completed sleeps a poll makes at most four micro-steps, and it completes
+     at most COOP sleeps *)
+  Definition poll_fuel : nat := (4 * (COOP + 2))%nat.
 
   Inductive ev := Poll (i : nat) | Advance (d : Z) | Complete (i : nat) | MakeReady (i : nat)
                 | CallEv (i : nat).
 
-  Record obs := mkObs { o_res : pres; o_polled : bool }.
-  Definition no_obs : obs := mkObs Pending false.
+  (* what one event shows: result of the poll, self-wake, the values the poll wrote to the
+     published state (in order) and the attempt counter it started from *)
+  Record obs := mkObs { o_res : pres; o_polled : bool; o_self : bool;
+                        o_ws : list cstate; o_att0 : nat }.
+  Definition no_obs : obs := mkObs Pending false false [] 0%nat.
 
   Definition timer_fires (s : st) (t1 : Z) (j : nat) : bool :=
     match ph (reqs s j) with
@@ -204,25 +230,27 @@ Section Reconnect.
     | _ => false
     end.
 
-  (* [pf]: bound on the micro-steps of one poll (unbounded in the code) *)
-  Definition step (c : cfg) (inps : nat -> rin) (pf : nat) (s : st) (e : ev) : st * obs :=
+  (* [pf]: bound on the micro-steps of one poll (never reached when 4 * cp + 3 < pf:
+     Proof/Reconnect.v); [cp]: cooperative budget of one poll.  run_script uses poll_fuel, COOP. *)
+  Definition step (c : cfg) (inps : nat -> rin) (pf cp : nat) (s : st) (e : ev) : st * obs :=
     match e with
     | Poll i =>
-      let '(r', ws, p) := drive c (inps i) pf (now s) (reqs s i) in
-      (mkSt (now s) (last ws (cs s)) (upd (reqs s) i r') (upd (woken s) i false)
-            (upd (polled s) i true) (match ws with [] => writer s | _ => Some i end),
-       mkObs p true)
+      let '(r', ws, p, sw) := drive c (inps i) pf cp (now s) (reqs s i) in
+      (mkSt (now s) (last ws (cs s)) (upd (reqs s) i r') (upd (woken s) i sw)
+            (upd (polled s) i true) (match ws with [] => writer s | _ => Some i end)
+            (rev (map (pair i) ws) ++ wlog s),
+       mkObs p true sw ws (attempt (reqs s i)))
     | CallEv i =>
       let r := reqs s i in
       match ph r with
       | PInit => (mkSt (now s) (cs s) (upd (reqs s) i (start_call (inps i) (now s) r))
-                       (woken s) (polled s) (writer s), no_obs)
+                       (woken s) (polled s) (writer s) (wlog s), no_obs)
       | _ => (s, no_obs)
       end
     | Advance d =>
       let t1 := now s + Z.max 0 d in
-      (mkSt t1 (cs s) (reqs s) (fun j => woken s j || timer_fires s t1 j) (polled s) (writer s),
-       no_obs)
+      (mkSt t1 (cs s) (reqs s) (fun j => woken s j || timer_fires s t1 j) (polled s) (writer s)
+            (wlog s), no_obs)
     | Complete i =>
       let r := reqs s i in
       match ph r with
@@ -230,7 +258,8 @@ Section Reconnect.
         (mkSt (now s) (cs s)
               (upd (reqs s) i (mkRst (PCalling true) (attempt r) (last_error r) (cur_start r)
                                      (log r) (res r)))
-              (if polled s i then upd (woken s) i true else woken s) (polled s) (writer s), no_obs)
+              (if polled s i then upd (woken s) i true else woken s) (polled s) (writer s)
+              (wlog s), no_obs)
       | _ => (s, no_obs)
       end
     | MakeReady i =>
@@ -240,13 +269,13 @@ Section Reconnect.
         (mkSt (now s) (cs s)
               (upd (reqs s) i (mkRst (PReadying true) (attempt r) (last_error r) (cur_start r)
                                      (log r) (res r)))
-              (upd (woken s) i true) (polled s) (writer s), no_obs)
+              (upd (woken s) i true) (polled s) (writer s) (wlog s), no_obs)
       | _ => (s, no_obs)
       end
     end.
 
-  Definition step_st (c : cfg) (inps : nat -> rin) (pf : nat) (s : st) (e : ev) : st :=
-    fst (step c inps pf s e).
+  Definition step_st (c : cfg) (inps : nat -> rin) (pf cp : nat) (s : st) (e : ev) : st :=
+    fst (step c inps pf cp s e).
 
   Definition started_calls (r : rst) : list (Z * Z) :=
     map (fun cl => (c_start cl, c_end cl)) (rev (log r)) ++
@@ -271,7 +300,11 @@ Arguments obs : clear implicits.
              delay_0 .. delay_{L-1};                       (Custom policy: delay for attempt k)
              nreq blocks [(okind payload gated ready) x L];
              (op a)* ]
-     has_max 0: unlimited_attempts, 1: max_attempts(max)
+     has_max even: unlimited_attempts, odd: max_attempts(max); has_max / 2 tells the harness how
+       the requests reach the layer (0: one service per request, 1: all through one
+       ReconnectService, 2: through clones of one service) — the model does not depend on it
+     p1 (Fixed), delay_k (Custom): durations (Lib/TokioTime.v ns_of: below 2^40 milliseconds,
+       2^40 + n = n nanoseconds); exponential: p1, p2 in whole milliseconds
      pred_mode 0: none, 1: error flag, 2: error code even, 3: never
      policy 0: None, 1: Fixed(p1 ms), 2: Custom(table), 3: exponential(p1 ms, max p2 ms)
      okind 0: Ok(payload), 1: Err(code payload, flag true), 2: Err(code payload, flag false)
@@ -279,9 +312,12 @@ Arguments obs : clear implicits.
      ready (before call k >= 1) 0: Ready(Ok), 1: Ready(Err(100000+payload)), 2: Pending until MakeReady
      op 1 = Poll a (calls the service first if not yet done), 2 = Advance a ms, 3 = Complete a,
         4 = MakeReady a, 5 = Call a (service.call without polling the future)
-   Calls beyond L behave like the all-zero entry.
+   Calls beyond L behave like the all-zero entry.  Instants in the trace are milliseconds
+   (all instants of a script are whole milliseconds).
    trace = per event [r; kind; payload; attempts; wake mask; published state (0 connected,
-             1 disconnected, 2 reconnecting); inner calls started so far; finished so far]
+             1 disconnected, 2 reconnecting); inner calls started so far; finished so far;
+             hash of the `to` states passed to on_state_change during the event, in order;
+             hash of the attempt numbers passed to on_reconnect during the event, in order]
            r: -1 no poll, 0 pending, 1 Ok, 2 Err, 9 nothing to poll
            kind (r = 2): 1 MaxAttemptsExceeded, 2 ConnectionFailed, 3 ConnectionFailedNoRetry, 4 ServiceError
            ++ per request [number of inner calls; (start, end or -1) per call] ++ [0] *)
@@ -308,19 +344,20 @@ Definition pred_of (m : Z) : option (Zerr -> bool) :=
 
 Definition policy_of (s : list Z) (L : nat) (kind p1 p2 : Z) (a : nat) : option Z :=
   if kind =? 0 then None else
-  if kind =? 1 then Some (Z.max 0 p1) else
-  if kind =? 2 then Some (if (a <? L)%nat then Z.max 0 (zn s (9 + a)) else 0) else
-  Some (Z.min (Z.max 0 p1 * 2 ^ Z.of_nat a) (Z.max 0 p2)).
+  if kind =? 1 then Some (ns_of p1) else
+  if kind =? 2 then Some (if (a <? L)%nat then ns_of (zn s (9 + a)) else 0) else
+  Some (Z.min (Z.max 0 p1 * 2 ^ Z.of_nat a) (Z.max 0 p2) * MS).
 
 Definition ev_of (n : nat) (t : Z * Z) : option ev :=
   let '(op, a) := t in
-  let i := Z.to_nat a in
-  let okid := (0 <=? a) && (i <? n)%nat in
-  if op =? 1 then (if okid then Some (Poll i) else None) else
-  if op =? 2 then Some (Advance a) else
-  if op =? 3 then (if okid then Some (Complete i) else None) else
-  if op =? 4 then (if okid then Some (MakeReady i) else None) else
-  if op =? 5 then (if okid then Some (CallEv i) else None) else None.
+  if op =? 2 then Some (Advance (a * MS)) else
+  if (0 <=? a) && (a <? Z.of_nat n) then
+    let i := Z.to_nat a in
+    if op =? 1 then Some (Poll i) else
+    if op =? 3 then Some (Complete i) else
+    if op =? 4 then Some (MakeReady i) else
+    if op =? 5 then Some (CallEv i) else None
+  else None.
 
 Fixpoint evs_of (n : nat) (l : list (Z * Z)) : list ev :=
   match l with
@@ -333,6 +370,25 @@ Definition wake_mask (s : st Z Zerr) (n : nat) : Z :=
 
 Definition cs_code (x : cstate) : Z :=
   match x with Connected => 0 | Disconnected => 1 | Reconnecting => 2 end.
+
+(* the callbacks (crate feature `tracing`): on_state_change(from, to) after every write of the
+   published state except the mark_connected of ConnectionFailedNoRetry; on_reconnect(attempt)
+   after every mark_reconnecting.  The attempt counter grows with every mark_disconnected. *)
+Definition HP : Z := 1000000007.
+Definition cb_states (o : obs Z Zerr) : list cstate :=
+  match o_res o with
+  | Ready (inr (ConnectionFailedNoRetry _)) => removelast (o_ws o)
+  | _ => o_ws o
+  end.
+Definition cb_hash (l : list cstate) : Z :=
+  fold_left (fun h x => (h * 5 + cs_code x + 1) mod HP) l 0.
+Definition rc_hash (a0 : nat) (l : list cstate) : Z :=
+  fst (fold_left (fun (ha : Z * Z) x =>
+                    match x with
+                    | Disconnected => (fst ha, snd ha + 1)
+                    | Reconnecting => ((fst ha * 1000003 + snd ha) mod HP, snd ha)
+                    | Connected => ha
+                    end) l (0, Z.of_nat a0)).
 
 Definition obs_ints (s' : st Z Zerr) (n : nat) (o : obs Z Zerr) : list Z :=
   (if o_polled o then
@@ -348,31 +404,32 @@ Definition obs_ints (s' : st Z Zerr) (n : nat) (o : obs Z Zerr) : list Z :=
    else [-1; 0; 0; 0]) ++
   [wake_mask s' n; cs_code (cs s');
    fold_left (fun acc j => acc + Z.of_nat (length (started_calls (reqs s' j)))) (seq 0 n) 0;
-   fold_left (fun acc j => acc + Z.of_nat (length (log (reqs s' j)))) (seq 0 n) 0].
+   fold_left (fun acc j => acc + Z.of_nat (length (log (reqs s' j)))) (seq 0 n) 0;
+   cb_hash (cb_states o); rc_hash (o_att0 o) (o_ws o)].
 
-Fixpoint run_evs (c : cfg Zerr) (inps : nat -> rin Z Zerr) (pf n : nat) (s : st Z Zerr)
+Fixpoint run_evs (c : cfg Zerr) (inps : nat -> rin Z Zerr) (n : nat) (s : st Z Zerr)
          (evs : list ev) : list Z * st Z Zerr :=
   match evs with
   | [] => ([], s)
   | e :: rest =>
-    let '(s', o) := step c inps pf s e in
-    let '(tr, sf) := run_evs c inps pf n s' rest in
+    let '(s', o) := step c inps poll_fuel COOP s e in
+    let '(tr, sf) := run_evs c inps n s' rest in
     (obs_ints s' n o ++ tr, sf)
   end.
 
 Definition calls_ints (r : rst Z Zerr) : list Z :=
   let l := started_calls r in
-  Z.of_nat (length l) :: flat_map (fun p => [fst p; snd p]) l.
+  Z.of_nat (length l) :: flat_map (fun p => [fst p / MS; if snd p <? 0 then -1 else snd p / MS]) l.
 
 Definition run_script (s : list Z) : list Z :=
   let n := Z.to_nat (zn s 7) in
   let L := Z.to_nat (zn s 8) in
   let c := {| pred := pred_of (zn s 2);
-              max_attempts := if zn s 0 =? 0 then None else Some (Z.to_nat (zn s 1));
+              max_attempts := if Z.even (zn s 0) then None else Some (Z.to_nat (zn s 1));
               policy := policy_of s L (zn s 3) (zn s 4) (zn s 5);
               retry_on_reconnect := negb (zn s 6 =? 0) |} in
   let blk := (4 * L)%nat in
   let inps := fun i => rin_of s L (9 + L + i * blk) in
   let evs := evs_of n (chunk2 (skipn (9 + L + n * blk) s)) in
-  let '(tr, sf) := run_evs c inps (4 * (L + 2) + 4) n init evs in
+  let '(tr, sf) := run_evs c inps n init evs in
   tr ++ flat_map (fun i => calls_ints (reqs sf i)) (seq 0 n) ++ [0].
